@@ -1,7 +1,8 @@
 #!/bin/sh
 # imports the deliverables of a seeded-change sub-agent (/tmp/seedwork/out-<id>) into /verif/seeded/<id>-a (and -b), removes its worktree
 id=$1
-src=/tmp/seedwork/out-$id
+round=${2:-1}
+if [ "$round" = 2 ]; then src=/tmp/seedwork/out2-$id; s1=c; s2=d; wt=/tmp/seedwork/wt2-$id; else src=/tmp/seedwork/out-$id; s1=a; s2=b; wt=/tmp/seedwork/wt-$id; fi
 cd "$(dirname "$0")/.."
 imp() { # suffix patch readme demo
   [ -f "$src/$2" ] || return 0
@@ -18,8 +19,8 @@ files = re.findall(r"^\+\+\+ b/(\S+)", open(d + "/patch.diff").read(), re.M)
 json.dump({"property": pid, "source": "independent sub-agent (given only the property text and a scratch worktree)", "files": files}, open(d + "/meta.json", "w"), indent=1)
 PY
 }
-imp a patch.diff README.md demo
-imp b patch2.diff README2.md demo2
-git -C /repo worktree remove --force /tmp/seedwork/wt-$id 2>/dev/null
-rm -rf /tmp/seedwork/wt-$id
+imp $s1 patch.diff README.md demo
+imp $s2 patch2.diff README2.md demo2
+git -C /repo worktree remove --force $wt 2>/dev/null
+rm -rf $wt
 ls seeded | grep "^$id"
